@@ -75,7 +75,9 @@ try:
     res['confirmed'] = ok
     out = '/verif/seeded/%s%s' % (prop, store_var)
     os.makedirs(out, exist_ok=True)
-    open(out + '/patch.diff', 'w', newline='').write(diff if mode == '3way' else open(patch, newline='').read())
+    ptxt = diff if mode == '3way' else open(patch, newline='').read()   # read BEFORE opening the target (they may be the same file)
+    assert ptxt.strip(), 'empty patch'
+    open(out + '/patch.diff', 'w', newline='').write(ptxt)
     if os.path.exists(src + '/demo_test.rs'):
         shutil.copy(src + '/demo_test.rs', out + '/demo_test.rs')
     if os.path.exists(src + '/demo.diff'):
